@@ -73,6 +73,10 @@ OneOfs == { OneOf(<< Dog, Cat >>, d, << >>) : d \in {"", "kind"} }
           \* (Memo {author, subject*} / Letter {author, recipient*}; Circle {kind*, radius*} / Square {kind*, side*})
           \cup { OneOf(<< Ref("VarMemo"), Ref("VarLetter") >>, "", << >>), OneOf(<< Ref("VarLetter"), Ref("VarMemo") >>, "", << >>) }
           \cup { OneOf(<< Ref("VarCircle"), Ref("VarSquare") >>, d, << >>) : d \in {"", "kind"} }
+          \* variants declared inline as primitives (told apart by their JSON type), alone and next to an object variant
+          \cup { OneOf(<< Sc("string", FALSE), Sc("int64", FALSE), Sc("bool", FALSE) >>, "", << >>),
+                 OneOf(<< Sc("bool", FALSE), Sc("string", FALSE) >>, "", << >>),
+                 OneOf(<< Sc("string", FALSE), Dog >>, "", << >>), OneOf(<< Cat, Sc("double", FALSE) >>, "", << >>) }
           \cup { OneOf(<< Dog, Cat >>, "kind", << DM("dog", "VarDog"), DM("cat", "VarCat"), DM("kitten", "VarCat") >>) }
           \cup { OneOf(<< Dog, Cat, Bird >>, "kind", dm) : dm \in { << >>, << DM("doggo", "VarDog") >>, << DM("kitty", "VarCat") >>, << DM("birdie", "VarBird") >>,
                                                                    << DM("doggo", "VarDog"), DM("birdie", "VarBird") >>,
